@@ -372,7 +372,7 @@ def match_template(
 
         return ()
 
-    if node == template:
+    if type(node) is type(template) and node == template:
         return (node,)
 
     return ()
